@@ -45,9 +45,9 @@ IDX = {
                 "timeout": 900, "thorough_timeout": 1500},
                {"module": "I_Inherit", "cfg": "MC_I_Inherit_2p.cfg", "workers": 4, "timeout": 900}],
     "gen": {"module": "Gen_Inherit", "cfg": "Gen_cover_small.cfg", "thorough_cfg": "Gen_cover.cfg", "workers": 1,
-            "max": 1200, "thorough_max": 30000, "timeout": 900, "thorough_timeout": 1500},
+            "max": 700, "thorough_max": 30000, "timeout": 900, "thorough_timeout": 1500},
     "driver": {"cmd": "labelidx"},
-    "n_random": (120, 3000),
+    "n_random": (80, 3000),
     "trace": {"module": "T_LabelIdx", "cfg": "T_LabelIdx.cfg", "timeout": 1500},
     "chunk": 60000,
     "signature": signature,
@@ -70,7 +70,7 @@ IDX = {
 RESTR = {
     "specdir": "selector",
     "design": [{"module": "I_Restr", "coverage": False, "cfg": "MC_I_Restr_quick.cfg", "thorough_cfg": "MC_I_Restr.cfg", "workers": 4, "timeout": 900}],
-    "gen": {"module": "Gen_Selector", "cfg": "Gen_Selector.cfg", "workers": 1, "max": 40, "thorough_max": None, "timeout": 900},
+    "gen": {"module": "Gen_Selector", "cfg": "Gen_Selector.cfg", "workers": 1, "max": 25, "thorough_max": None, "timeout": 900},
     "driver": {"cmd": "selector", "env": {"VERIF_RESTR": "1"}},
     "n_random": (15, 400),
     "trace": {"module": "T_Restr", "cfg": "T_Restr.cfg", "timeout": 1500},
@@ -85,6 +85,16 @@ RESTR = {
 
 
 def run(ctx):
+    if ctx.replay:
+        # a replay bundle belongs to the leg that produced it (signature prefix in meta.json)
+        import json
+        import os
+        try:
+            sig = json.load(open(os.path.join(ctx.replay, "meta.json"))).get("signature", "")
+        except Exception:
+            sig = ""
+        pipeline.standard_check(ctx, RESTR if sig.startswith("restr") else IDX)
+        return
     pipeline.standard_check(ctx, IDX)
     if not ctx.replay:
         rule = ctx.cov["rule"]
